@@ -142,21 +142,39 @@ UNI = ["\u00e9", "\u00b1", "\u00a0", "\u00ff", "\u0100", "\u03b1\u03b2", "\u2265
        "\uffff", "\U00010000", "\U0001F600", "\U0010FFFF", "\u20ac 5", "na\u00efve"]
 
 
+RANGES = [(0xA1, 0xFF), (0x100, 0x24F), (0x370, 0x3FF), (0x2000, 0x206F), (0x2100, 0x214F), (0x3000, 0x30FF),
+          (0x4E00, 0x4FFF), (0xFE50, 0xFE6B), (0xFF01, 0xFF5E), (0xFFE0, 0xFFE6), (0x1F300, 0x1F64F),
+          (0x20000, 0x2007F), (0xE000, 0xE0FF)]
+
+
+def uni_snippet(rng):
+    """a fixed boundary string or 1..3 random characters from blocks that matter for escaping (Latin-1,
+    general punctuation, letterlike, CJK, the small-form and fullwidth variants of ASCII punctuation
+    - whose compatibility forms are RTF metacharacters -, emoji, supplementary planes, private use)"""
+    if rng.random() < 0.4:
+        return rng.choice(UNI)
+    out = []
+    for _ in range(rng.randint(1, 3)):
+        lo, hi = rng.choice(RANGES)
+        out.append(chr(rng.randint(lo, hi)))
+    return "".join(out)
+
+
 def sprinkle_unicode(rng, spec):
     """non-ASCII text in cells and text components (exercises the \\u escaper)"""
     grouping = set(spec["body"].get("page_by") or []) | set(spec["body"].get("subline_by") or []) | \
         set(spec["body"].get("group_by") or [])
     for j, col in enumerate(spec["df"]["cols"]):
         if col["dtype"] == "str" and col["name"] not in grouping and j != spec["_meta"]["key"]:
-            col["values"] = [v if v is None or rng.random() < 0.5 else v + rng.choice(UNI) for v in col["values"]]
+            col["values"] = [v if v is None or rng.random() < 0.5 else v + uni_snippet(rng) for v in col["values"]]
     for key in ("title", "subline", "footnote", "source", "page_footer"):
         c = spec.get(key)
         if isinstance(c, dict) and rng.random() < 0.5:
             t = c["text"]
             if isinstance(t, list):
-                c["text"] = [x + " " + rng.choice(UNI) for x in t]
+                c["text"] = [x + " " + uni_snippet(rng) for x in t]
             else:
-                c["text"] = t + " " + rng.choice(UNI)
+                c["text"] = t + " " + uni_snippet(rng)
 
 
 def gen_random(rng):
